@@ -447,6 +447,14 @@ def state_deps(chk, program, rule='STATE-DEPS'):
         except AnalysisError:
             raise
         used = {}
+        pure_reads = set()
+        cls_methods_ = [f_ for q_, f_ in m.defs.items() if q_.startswith('NMEA2000Decoder.') and q_ != 'NMEA2000Decoder.__init__']
+        memo_ok = {}
+        for a_ in sorted((own_state & touched) - HISTORY - bookkeeping):
+            try:
+                memo_ok[a_] = _pure_memo_reads(a_, ex.events, derived, cls_methods_)
+            except (IndexError, TypeError, KeyError):
+                memo_ok[a_] = None
         # what a guard decides: whether None is returned instead of the message, and what is stored.  (A guard that only chooses between two
         # returns of the same message -- e.g. an early `return msg` when no dump file is open -- decides nothing about the result.)
         ret_vals = {e[2] for e in ex.events if e[0] == 'return' and e[2] != sym.NONE}
@@ -454,10 +462,22 @@ def state_deps(chk, program, rule='STATE-DEPS'):
             if e[0] == 'return' and e[2] != sym.NONE and len(ret_vals) == 1:
                 continue
             if e[0] in ('return', 'store', 'del'):
+                # a store into the decoder's own state guarded by a test of that same state (a memo filled when the entry is missing) decides nothing by
+                # itself: whether that state decides a result shows where a return, or a store into something else, is guarded by it
+                own_target = set()
+                if e[0] in ('store', 'del'):
+                    own_target = {s_[2] for s_ in sym.walk(e[2]) if s_[0] == 'attr' and s_[1] == ('param', 'self') and s_[2] in own_state and s_[2] in touched
+                                  and s_[2] not in HISTORY and s_[2] not in bookkeeping}
                 for gterm in e[1]:
                     for s_ in sym.walk(gterm):
-                        if s_[0] == 'attr' and s_[1] == ('param', 'self'):
+                        if s_[0] == 'attr' and s_[1] == ('param', 'self') and s_[2] not in own_target:
+                            if memo_ok.get(s_[2]) is not None and memo_ok[s_[2]](gterm):
+                                pure_reads.add(s_[2])          # read only as `f(K) if the memo has no K else memo[K]`: the value is f(K) either way
+                                continue
                             used.setdefault(s_[2], e[-1])
+        for a in sorted(pure_reads - set(used)):
+            chk.ok(rule, f"{qual}::memo-of-a-function-of-its-key::self.{a}", file=m.rel(), line=fn.lineno, func=qual,
+                   found=f"self.{a} is written only as self.{a}[K] = f(K) and read only as `f(K) if missing else self.{a}[K]`")
         for a, ln in sorted(used.items()):
             if a in own_state and a in touched and a not in HISTORY and a not in bookkeeping:
                 if history_present:
@@ -473,6 +493,76 @@ def state_deps(chk, program, rule='STATE-DEPS'):
             chk.check(ok, rule, f"{qual}::depends-on::self.{a}", file=m.rel(), line=ln, func=qual,
                       expected='what is returned depends only on the configuration, the source map and the reassembly buffers', found=f"a guard reads self.{a}",
                       detail='' if ok else 'state kept for logging / bookkeeping now decides whether a message is returned: an ignored or rejected input changes later results')
+
+def _pure_memo_reads(a, events, derived, cls_methods):
+    """self.<a> is a memo of a function of its key: every write in the class is `self.a[K] = V` seen by the symbolic walk, V and the store's guards
+    (the test of the memo itself aside) are built from K's components, configuration and module-level names only, and every other read of self.a in a
+    guard sits in `V if self.a.get(K) is None else self.a.get(K)` (or the `is not None` / `in` spellings) with that same K and V -- which is V whatever
+    the memo holds.  -> the function that says whether a guard's reads of self.a are all of that kind, or None when self.a is not such a memo"""
+    from . import sym
+    A_ = ('attr', ('param', 'self'), a)
+    READ_ONLY = {'get', 'items', 'keys', 'values', 'copy'}
+    sites = set()
+    for f_ in cls_methods:
+        for n in ast.walk(f_):
+            if isinstance(n, ast.Attribute) and isinstance(n.value, ast.Name) and n.value.id == 'self' and n.attr == a:
+                par = getattr(n, '_parent', None)
+                if isinstance(n.ctx, (ast.Store, ast.Del)) or (isinstance(par, ast.AugAssign) and par.target is n):
+                    return None
+                if isinstance(par, ast.Subscript) and isinstance(par.ctx, ast.Del):
+                    return None
+                if isinstance(par, ast.Subscript) and isinstance(par.ctx, ast.Store):
+                    sites.add(par.lineno)
+                if isinstance(par, ast.Attribute) and (isinstance(par.ctx, (ast.Store, ast.Del)) or
+                                                       (isinstance(getattr(par, '_parent', None), ast.Call) and par._parent.func is par and par.attr not in READ_ONLY)):
+                    return None
+    stores = [e for e in events if e[0] in ('store', 'del') and any(s_ == A_ for s_ in sym.walk(e[2]))]
+    if not stores or not sites or not sites <= {e[-1] for e in stores}:
+        return None
+    memo = {}
+    for e in stores:
+        if e[0] != 'store' or not (e[2][0] == 'sub' and e[2][1] == A_):
+            return None
+        K, V = e[2][2], e[3]
+        atoms = [K] + ([x for x in (K[1] if len(K) == 2 and isinstance(K[1], tuple) and (not K[1] or not isinstance(K[1][0], str)) else K[1:]) if isinstance(x, tuple)] if K[0] == 'tuple' else [])
+        def covered(t, allow_self):
+            if t in atoms:
+                return True
+            if not isinstance(t, tuple) or not t:
+                return True
+            rest = t
+            if isinstance(t[0], str):
+                if t[0] == 'param':
+                    return False
+                if t[0] == 'attr' and t[1] == ('param', 'self'):
+                    return t[2] in derived or (allow_self and t[2] == a)
+                rest = t[1:]
+            return all(covered(x, allow_self) for x in rest if isinstance(x, tuple))
+        if not covered(V, False) or not all(covered(g, True) for g in e[1]):
+            return None
+        if memo.setdefault(K, V) != V:
+            return None
+    def is_read(t, K):
+        return (t[0] == 'sub' and t[1] == A_ and t[2] == K) or (t[0] == 'call' and t[1] == ('attr', A_, 'get') and len(t[2]) >= 1 and t[2][0] == K and
+                                                               (len(t[2]) == 1 or t[2][1] == sym.NONE) and not t[3])
+    def ok(t):
+        if not isinstance(t, tuple) or not t:
+            return True
+        if t == A_:
+            return False
+        if isinstance(t[0], str) and t[0] == 'ite':
+            c, x, y = t[1], t[2], t[3]
+            for K, V in memo.items():
+                if c[0] == 'cmp' and c[1] == 'is' and c[3] == sym.NONE and is_read(c[2], K) and x == V and is_read(y, K):
+                    return True
+                if c[0] == 'cmp' and c[1] == 'is not' and c[3] == sym.NONE and is_read(c[2], K) and y == V and is_read(x, K):
+                    return True
+                if c[0] == 'cmp' and c[1] == 'not in' and c[2] == K and c[3] == A_ and x == V and is_read(y, K):
+                    return True
+                if c[0] == 'cmp' and c[1] == 'in' and c[2] == K and c[3] == A_ and y == V and is_read(x, K):
+                    return True
+        return all(ok(x) for x in (t[1:] if isinstance(t[0], str) else t) if isinstance(x, tuple))
+    return ok
 
 def no_decorators(chk, program, rule='FRESH-MSG'):
     """generated decode/encode functions carry no decorator: a caching decorator (lru_cache) would hand the same message object to every caller"""
